@@ -10,6 +10,11 @@ package main
 //	img   : the current symbol (+flips) rendered at rot*90 degrees, `scale` pixels per module, `quiet` modules of white
 //	        margin, read with aztec.AztecReader.Decode
 //	hl    : bits (chunks, nbits) given to decoder.HighLevelDecode
+//	tmpl  : rows = function patterns of a symbol with an empty mode ring, mask = which modules are function modules
+//	det   : the template with the listed mode-ring cells (flips) dark and pseudo-random data modules (seeded by id),
+//	        rendered like img; detector.Detect is asked which (compact, layers, data codewords) the symbol announces
+//
+// One Decoder and one AztecReader serve the whole run (applications keep them; state carried between symbols shows).
 
 import (
 	"encoding/json"
@@ -30,6 +35,7 @@ type ev struct {
 	Nd     int     `json:"nd"`
 	Items  [][]int `json:"items"`
 	Rows   [][]int `json:"rows"`
+	Mask   [][]int `json:"mask"`
 	Faults [][]int `json:"faults"`
 	Flips  [][]int `json:"flips"`
 	Rot    int     `json:"rot"`
@@ -47,6 +53,7 @@ type ev struct {
 type symbol struct {
 	size, c, layers, nd int
 	cells               [][]bool
+	mask                [][]bool // tmpl only
 }
 
 func runes(s string) []int {
@@ -106,6 +113,8 @@ func render(m *gozxing.BitMatrix, rot, scale, quiet int) image.Image {
 
 func main() {
 	var cur *symbol
+	dec := azdec.NewDecoder()
+	rd := aztec.NewAztecReader()
 	hlib.Main(func(raw []byte) (interface{}, error) {
 		var e ev
 		if err := json.Unmarshal(raw, &e); err != nil {
@@ -120,7 +129,7 @@ func main() {
 			}
 		}
 		direct := func(m *gozxing.BitMatrix) {
-			r, err := azdec.NewDecoder().Decode(azdet.NewAztecDetectorResult(m, nil, cur.c == 1, cur.nd, cur.layers))
+			r, err := dec.Decode(azdet.NewAztecDetectorResult(m, nil, cur.c == 1, cur.nd, cur.layers))
 			if err != nil {
 				fail(err)
 				return
@@ -145,14 +154,53 @@ func main() {
 					fail(err)
 					return
 				}
-				r, err := aztec.NewAztecReader().Decode(bmp, nil)
+				r, err := rd.Decode(bmp, nil)
 				if err != nil {
 					fail(err)
 					return
 				}
 				e.Txt = runes(r.GetText())
+			case "tmpl":
+				n := len(e.Rows)
+				s := &symbol{size: n, c: e.C, layers: e.Layers, cells: make([][]bool, n), mask: make([][]bool, n)}
+				for y := 0; y < n; y++ {
+					s.cells[y] = hlib.Unchunk(e.Rows[y], n)
+					s.mask[y] = hlib.Unchunk(e.Mask[y], n)
+				}
+				cur = s
+			case "det":
+				m := cur.matrix(e.Flips)
+				rnd := uint32(e.Id)*2654435761 + 12345
+				for y := 0; y < cur.size; y++ {
+					for x := 0; x < cur.size; x++ {
+						rnd = rnd*1664525 + 1013904223
+						if !cur.mask[y][x] && rnd>>16&1 == 1 {
+							m.Set(x, y)
+						}
+					}
+				}
+				bmp, err := gozxing.NewBinaryBitmapFromImage(render(m, e.Rot, e.Scale, e.Quiet))
+				if err != nil {
+					fail(err)
+					return
+				}
+				bm, err := bmp.GetBlackMatrix()
+				if err != nil {
+					fail(err)
+					return
+				}
+				r, err := azdet.NewDetector(bm).Detect(false)
+				if err != nil {
+					fail(err)
+					return
+				}
+				c := 0
+				if r.IsCompact() {
+					c = 1
+				}
+				e.Txt = []int{c, r.GetNbLayers(), r.GetNbDatablocks()}
 			case "hl":
-				s, err := azdec.NewDecoder().HighLevelDecode(hlib.Unchunk(e.Bits, e.NBits))
+				s, err := dec.HighLevelDecode(hlib.Unchunk(e.Bits, e.NBits))
 				if err != nil {
 					fail(err)
 					return
@@ -168,6 +216,12 @@ func main() {
 		}
 		if e.Rows == nil {
 			e.Rows = [][]int{}
+		}
+		if e.Mask == nil {
+			e.Mask = [][]int{}
+		}
+		if e.Op == "tmpl" {
+			e.Mask = [][]int{} // not needed by the judgement; keeps the trace small
 		}
 		if e.Faults == nil {
 			e.Faults = [][]int{}
